@@ -80,8 +80,9 @@ def run(rep: common.Report, tier: str, seed: int):
         w, h = rng.randint(1, 24 if quick else 64), rng.randint(1, 12 if quick else 64)
         p = rng.choice([0.1, 0.5, 0.9, 0.0, 1.0])
         px = [[rng.random() < p for _ in range(w)] for _ in range(h)]
-        param = dict(px_to_mm=rng.choice([0.01, 0.04, 0.125, 0.3]), speed=rng.choice([1.0, 2.0, 0.3]),
-                     speed_closed=rng.choice([5, 3.0]), z_init=rng.choice([None, 0.0, -0.01, 0.035]))
+        param = dict(px_to_mm=rng.choice([0.01, 0.04, 0.125, 0.3]), speed=rng.choice([1.0, 2.0, 0.3, 3.0]),
+                     speed_closed=rng.choice([5, 3.0, 3.0]),     # speed == speed_closed happens (1 case in 6)
+                     z_init=rng.choice([None, 0.0, -0.01, 0.035]))
         add(param, px, rng.choice(['1', 'L', 'RGB']), 'random')
     fails = common.run_model('C15', 'Harness.C15', 'C15.case', 'C15.failing', lits, shard=100,
                              extra_imports='From Femto Require Import Path.Raster.')
